@@ -226,6 +226,7 @@ class Fn:
 # rewrite rules (each returns new text and bumps a counter in `log`)
 
 TRACE_MACROS = {"trace", "debug", "info", "warn", "error"}
+KEEP_ATTRS = ("repr", "verifier")
 DROP_ATTRS = ("instrument", "tracing", "derive", "serde", "error", "from", "cfg", "allow", "expect", "doc", "inline", "must_use", "source", "diagnostic", "tokio")
 
 
@@ -244,7 +245,7 @@ def r_attrs(text, log):
             name = toks[sg[p + 2]].text
             if name in DROP_ATTRS:
                 edits.append((toks[k].s, toks[c].e, ""))
-            elif name == "verifier":
+            elif name in KEEP_ATTRS:
                 pass
             else:
                 raise WbxError(f"unsupported attribute #[{name}..]")
@@ -644,7 +645,7 @@ def parse_template(lines):
                     block.subs.append(cur_sub)
             else:
                 d = Directive(kind, arg, i + 1)
-                if kind in ("fn", "slice"):
+                if kind in ("fn", "slice", "xitem"):
                     block, cur_sub = d, None
                 else:
                     out.append(("dir", d))
@@ -719,6 +720,17 @@ class Gen:
                                    "sha256": hashlib.sha256(s[it.s:it.e].encode()).hexdigest()[:16], "gen_lines": [g0, self.lineno() - 1]})
 
     def local_subs(self, text, d, log):
+        for kind, arg, lines in getattr(d, "subs", []):
+            if kind == "sub":
+                m = re.match(r"`(.*?)`\s*=>\s*`(.*?)`\s*(?:;\s*(.*))?$", arg)
+                if not m:
+                    raise WbxError(f"bad sub directive: {arg}")
+                old, new, reason = m.group(1), m.group(2), m.group(3) or ""
+                hits = find_tokens(text, old, "sub")
+                if not hits:
+                    raise WbxError(f"lost anchor: substitution source `{old}` not found in item {d.arg}")
+                text = apply_edits(text, [(a, b, new) for a, b in hits])
+                bump(log, f"S `{old}` -> `{new}` ({reason})", len(hits))
         return text
 
     def do_impl(self, d):
@@ -734,12 +746,27 @@ class Gen:
         self.emit(header.rstrip() + " {")
 
     def do_endimpl(self, d):
+        header = norm(self.cur_impl[1][0].header)
+        trait_impl = re.search(r" for ", " " + header + " ") is not None and not header.startswith("impl <") or " for " in header
+        after = []
         for c, rec in self.pending_canaries:
+            if trait_impl:
+                # a trait impl cannot hold extra methods: emit the canary as a free function (Self -> implementing type)
+                if re.search(r"\(\s*&?\s*(mut\s+)?self\b", c):
+                    rec["canary"] = None
+                    continue
+                ty = header.split(" for ", 1)[1].split(" where")[0].strip()
+                after.append((re.sub(r"\bSelf\b", ty, c), rec))
+                continue
             c0 = self.lineno()
             self.emit(c)
             rec["canary_lines"] = [c0, self.lineno() - 1]
         self.pending_canaries = []
         self.emit("}")
+        for c, rec in after:
+            c0 = self.lineno()
+            self.emit(c)
+            rec["canary_lines"] = [c0, self.lineno() - 1]
         self.cur_impl = None
 
     def locate_fn(self, name):
@@ -1064,7 +1091,7 @@ class Gen:
                 if d.kind == "use":
                     self.cur_file = d.arg
                     self.src(d.arg)
-                elif d.kind == "item":
+                elif d.kind in ("item", "xitem"):
                     self.do_item(d)
                 elif d.kind == "impl":
                     self.do_impl(d)
